@@ -415,8 +415,10 @@ class Interp:
         ty = n["ty"].replace(" ", "")
         if ty == "f64" and isinstance(v, T):
             return tm.ToReal(v)
-        if ty in ("usize", "i64", "u64", "i32") and isinstance(v, T) and v.sort == "Int":
-            return v
+        if ty in ("usize", "i64", "u64", "i32", "u32") and isinstance(v, T) and v.sort == "Int":
+            return v          # machine-width wrap-around of integer casts is NOT modelled (stated where it matters)
+        if ty in ("usize", "i64", "u64", "i32", "u32") and isinstance(v, T) and v.sort == "Real" and v.op == "to_real":
+            return v.args[0]  # cast of an integer-valued real produced by floor()/ceil()/`as f64` back to an integer
         raise Unsupported("cast to " + ty)
 
     def ev_field(self, env, n):
@@ -466,8 +468,8 @@ class Interp:
         if name == "Self": name = env.self_ty
         if n["rest"] is not None: raise Unsupported("struct update syntax")
         fields = {f["name"]: self.ev(env, f["e"]) for f in n["fields"]}
-        if name in ("DVec3", "DVec4", "DVec2"):
-            return Vec([fields[c] for c in "xyzw"[: {"DVec2": 2, "DVec3": 3, "DVec4": 4}[name]]])
+        if name in ("DVec3", "DVec4", "DVec2", "UVec3", "IVec3"):
+            return Vec([fields[c] for c in "xyzw"[: {"DVec2": 2, "DVec3": 3, "DVec4": 4, "UVec3": 3, "IVec3": 3}[name]]])
         return Struct(name, fields)
 
     def ev_block(self, env, n):
@@ -1089,7 +1091,25 @@ class Interp:
         if m == "max": return Vec([tm.Max(x, y) for x, y in zip(v.c, a[0].c)])
         if m == "is_finite": return TRUE
         if m == "element_sum": return tm.Sum(v.c)
+        if m in ("ceil", "floor"): return Vec([self.round_int(env, n, x, m) for x in v.c])
+        if m in ("as_uvec3", "as_dvec3", "as_ivec3"): return v          # numeric casts between vectors of integers-as-reals
+        if m == "min_element":
+            r = v.c[0]
+            for x in v.c[1:]: r = tm.Min(r, x)
+            return r
+        if m == "max_element":
+            r = v.c[0]
+            for x in v.c[1:]: r = tm.Max(r, x)
+            return r
         raise Unsupported("DVec method " + m)
+
+    def round_int(self, env, node, x, how):
+        """f64::ceil / floor over the reals: the integer c with x <= c < x + 1 (ceil) resp. c <= x < c + 1 (floor)."""
+        k = self.ctx.fresh(how, "Int")
+        c = tm.ToReal(k)
+        one = Const(1, "Real")
+        self.ctx.assume.append(And(Le(x, c), Lt(c, x + one)) if how == "ceil" else And(Le(c, x), Lt(x, c + one)))
+        return c
 
     def scalar_method(self, env, n, x, m, a):
         if x.sort == "Real":
@@ -1107,6 +1127,7 @@ class Interp:
                 for _ in range(a[0].args[0]): r = r * x
                 return r
             if m in ("clone", "to_f64", "value"): return x
+            if m in ("ceil", "floor"): return self.round_int(env, n, x, m)
             if m == "partial_cmp" and len(a) == 1 and isinstance(a[0], T) and a[0].sort == "Real":
                 return Opt(TRUE, ("sign", x - a[0]))       # A-REAL: no NaN, so the comparison is total
         if x.sort == "Int":
